@@ -828,7 +828,7 @@ func canonSlice(l []string) []string {
 
 func (c *poolComp) dump() string {
 	var nodes, peers, nb, ab, paid, dep []string
-	for _, id := range nodeIdents {
+	for _, id := range append(append([]*identity{}, nodeIdents...), upNodeIdents...) {
 		n, err := c.st.GetNode(store.NodeID(id.id))
 		if err != nil {
 			continue
